@@ -344,6 +344,9 @@ type program struct {
 
 func (p program) body() func() {
 	return func() {
+		// the clock stands still: every write of the scenario carries the same change time (a write is told from
+		// another by what it stores, not by when)
+		verifrt.VirtualClock()
 		var e env
 		if p.isVal {
 			e.val = resource.NewValue(resource.WithInitialValue(msg(p.init.v)))
@@ -430,6 +433,7 @@ func progName(isVal bool, init state, threads [][]opSpec) string {
 
 func main() {
 	h := hx.New("C02")
+	registerDirect(h)
 	add := func(isVal bool, init state, q, t int, threads ...[]opSpec) {
 		p := program{isVal: isVal, init: init, threads: threads}
 		p.name = progName(isVal, init, threads)
